@@ -38,14 +38,11 @@ def _var_int(data: bytearray, offset: int = 0) -> Tuple[int, int]:
 def _read_track(chunk):
     """Returns a list of midi events and tempo change events"""
 
-    TEMPO, MIDI = range(2)
-
     # Deviations: The running status should be reset on non midi events, but
     # some files contain meta events in between.
     # TODO: Offset and time signature are not considered.
 
     tempos = []
-    events = []
 
     chunk = bytearray(chunk)
     deltasum = 0
@@ -70,7 +67,7 @@ def _read_track(chunk):
                 if len(data) != 3:
                     raise SMFError
                 tempo = struct.unpack(">I", b"\x00" + bytes(data))[0]
-                tempos.append((deltasum, TEMPO, tempo))
+                tempos.append((deltasum, tempo))
             off += num
         elif event_type in (0xF0, 0xF7):
             val, off = _var_int(chunk, off)
@@ -89,15 +86,13 @@ def _read_track(chunk):
             if event_type >> 4 in (0xD, 0xC):
                 off -= 1
 
-            events.append((deltasum, MIDI, delta))
-
-    return events, tempos
+    # every event advances the time by its delta-time, the end of the track
+    # is at the sum of all of them
+    return deltasum, tempos
 
 
 def _read_midi_length(fileobj):
     """Returns the duration in seconds. Can raise all kind of errors..."""
-
-    TEMPO, MIDI = range(2)
 
     def read_chunk(fileobj):
         info = fileobj.read(8)
@@ -129,45 +124,37 @@ def _read_midi_length(fileobj):
     if tickdiv == 0:
         raise SMFError("Invalid timing interval")
 
-    # get a list of events and tempo changes for each track
+    # get the end (in ticks) and the tempo changes of each track
     tracks = []
-    first_tempos = None
+    tempo_map = None
     for tracknum in range(ntracks):
         identifier, chunk = read_chunk(fileobj)
         if identifier != b"MTrk":
             continue
-        events, tempos = _read_track(chunk)
+        end, tempos = _read_track(chunk)
 
-        # In case of format == 1, copy the first tempo list to all tracks
-        first_tempos = first_tempos or tempos
+        # In case of format == 1 the tempo map of the first track applies
+        # to all tracks
         if format_ == 1:
-            tempos = list(first_tempos)
-        events += tempos
-        events.sort()
-        tracks.append(events)
+            if tempo_map is None:
+                tempo_map = tempos
+            tempos = tempo_map
+        tracks.append((end, tempos))
 
-    # calculate the duration of each track
+    # calculate the duration of each track: a tempo (microseconds per
+    # quarter note) applies from the tick of its event on
     durations = []
-    for events in tracks:
+    for end, tempos in tracks:
         tempo = 500000
-        parts = []
-        deltasum = 0
-        for (dummy, type_, data) in events:
-            if type_ == TEMPO:
-                parts.append((deltasum, tempo))
-                tempo = data
-                deltasum = 0
-            else:
-                deltasum += data
-        parts.append((deltasum, tempo))
-
+        last = 0
         duration = 0
-        for (deltasum, tempo) in parts:
-            quarter, tpq = deltasum / float(tickdiv), tempo
-            duration += (quarter * tpq)
-        duration /= 10 ** 6
-
-        durations.append(duration)
+        for tick, new_tempo in tempos:
+            tick = min(tick, end)
+            duration += (tick - last) / float(tickdiv) * tempo
+            last = tick
+            tempo = new_tempo
+        duration += (end - last) / float(tickdiv) * tempo
+        durations.append(duration / 10 ** 6)
 
     if not durations:
         raise SMFError("No tracks found")
